@@ -71,12 +71,21 @@ func c05Clients() []string {
 		cs = append(cs, flipBit(a6, i).String())
 	}
 	cs = append(cs, "::ffff:"+c05A4, "::ffff:10.1.2.2")
+	// neighbours of the short-form IPv6 addresses of the menu ("::1", "fd00::1": two colons only)
+	for _, a := range []string{"fd00::1", "::1"} {
+		ip := net.ParseIP(a)
+		cs = append(cs, ip.String())
+		for _, bit := range []int{127, 126, 112, 64, 63, 33, 32, 31, 16, 8, 0} {
+			cs = append(cs, flipBit(ip, bit).String())
+		}
+	}
 	return cs
 }
 
 var c05Menu = []string{
 	"10.1.2.3", "10.1.2.3/32", "10.1.2.0/24", "10.1.2.2/31", "10.0.0.0/8", "0.0.0.0/0", "10.1.2.3/25", "10.1.2.128/25",
 	"2001:db8::1", "2001:db8::/32", "2001:db8::1/128", "::/0", "2001:db8::/127", "2001:db8:0:0:8000::/65",
+	"fd00::1", "::1",
 }
 
 func subsets(n, max int) [][]int {
